@@ -84,13 +84,18 @@ func c04Hooks(res *vResult, cfg mUP4Cfg) func(h *hRunner) {
 					shape = m.Shape
 				}
 				rule := m.Rule
+				if h.cfg.CreateByModUP4 && h.rejected > 0 {
+					// one root cause (recorded finding): a modification that UP4 rejects after some of its writes (tunnel peer,
+					// meters, UE mappings) is not rolled back
+					rule, shape = "C04.R4", "up4-rejected-modification-not-rolled-back"
+				}
 				if h.cfg.KeyChangeUP4 && h.sawKeyChange {
 					// one root cause (recorded finding): the UP4 translator handles an Update PDR by MODIFYing the entries
 					// the updated PDR denotes; the entries under the PDR's previous key are neither removed nor re-keyed
 					rule, shape = "C04.R4", "up4-update-pdr-key-change"
 				}
 				res.violate(rule, shape, "after "+op.Desc+": "+m.What, map[string]interface{}{"trace": append([]string{}, h.trace...), "all": mMismatchText(ms)})
-				if rule == "C04.R4" && shape == "up4-update-pdr-key-change" {
+				if rule == "C04.R4" && (shape == "up4-update-pdr-key-change" || shape == "up4-rejected-modification-not-rolled-back") {
 					break
 				}
 			}
@@ -163,7 +168,39 @@ func TestVerif_C04(t *testing.T) {
 		a = nil
 	}
 	c04KeyChange(res)
+	c04CreateByModification(res)
 	c04Restart(res)
+}
+
+// c04CreateByModification: Create PDR/FAR/QER in a Session Modification on UP4. Outside the envelope of the main
+// histories; whatever the agent answers, the tables must agree with it: rejected = the session's entries as before,
+// accepted = the new rules installed.
+func c04CreateByModification(res *vResult) {
+	n := vEnv.pick(16, 300)
+	for k := 0; k < n; k++ {
+		idx := 6500000 + k
+		if !vEnv.mine(idx) {
+			continue
+		}
+		rng := vEnv.rng("c04c", k)
+		o := c04Opts(rand.New(rand.NewSource(int64(k)*7927+vEnv.seed)), vEnv.addr(1))
+		a, err := vStartAgent(o)
+		if err != nil {
+			res.inconclusive("agent start: " + err.Error())
+			return
+		}
+		ucfg := c04UP4Cfg(o)
+		cfg := c04Cfg(rng)
+		cfg.NAssoc, cfg.Steps, cfg.Negatives, cfg.CreateByModUP4 = 1, 8, false, true
+		cfg.Mods = []string{"create", "create", "upfar"}
+		res.begin(idx, fmt.Sprintf("c04 create by modification %d", k), nil)
+		h := &hRunner{res: res, a: a, rng: rng, cfg: cfg, n3: ucfg.N3, n6: 0, base: 52000 + k*40%7000}
+		c04Hooks(res, ucfg)(h)
+		h.run()
+		res.eval(1)
+		res.event("create_by_modification_histories", 1)
+		a.stop(vStopWatchdog)
+	}
 }
 
 // c04KeyChange: Update PDRs that change the PDR's match key (F-TEID, SDF filter) on UP4. Outside the envelope of the
